@@ -27,7 +27,7 @@ Definition le32 (n : N) : str := [n mod 256; (n / 256) mod 256; (n / 65536) mod 
 Definition of_le32 (b0 b1 b2 b3 : N) : N := b0 + 256 * b1 + 65536 * b2 + 16777216 * b3.
 Definition enc_frame (t : N) (data : str) : str := t :: le32 (len_of data) ++ data.
 
-Inductive frame_res := FEof | FExit | FMsg (t : N) (data rest : str).
+Inductive frame_res := FEof | FTorn | FExit | FMsg (t : N) (data rest : str).
 
 Definition read_frame (s : str) : frame_res :=
   match s with
@@ -37,9 +37,9 @@ Definition read_frame (s : str) : frame_res :=
       else match r with
            | b0 :: b1 :: b2 :: b3 :: r' =>
                let len := of_le32 b0 b1 b2 b3 in
-               if ltb_len r' len then FExit                   (* EOF inside the data *)
+               if ltb_len r' len then FTorn                   (* EOF inside the data: ++result; return false *)
                else FMsg t (firstn (N.to_nat len) r') (skipn (N.to_nat len) r')
-           | _ => FExit                                       (* EOF / short read inside the length *)
+           | _ => FTorn                                       (* EOF / short read inside the length: ++result; return false *)
            end
   end.
 
@@ -87,6 +87,7 @@ Section Machine.
     let die := mkPS (ph st) (result st) (log st) (Some 1) in        (* std::exit(EXIT_FAILURE) *)
     match read_frame s with
     | FEof => close (result st + 1) (log st)                         (* ++result; return false *)
+    | FTorn => close (result st + 1) (log st)                        (* worker died inside a record (fix 532f6fa) *)
     | FExit => die
     | FMsg t data rest =>
         if t =? SIG_REPORT_ERROR then
